@@ -82,7 +82,9 @@ SrcShapes ==
     [] SrcPreset = "lean"  -> {<<5>>, <<3, 4>>, <<2, 3, 2>>}
     [] SrcPreset = "cre"   -> {<<6>>, <<3, 4>>}
     [] SrcPreset = "cube"  -> {<<2, 2, 2>>}
-SrcKinds == CASE SrcPreset \in {"1d", "1d7", "lean", "lean1", "lean2", "lean3"} -> {"i"} [] SrcPreset = "cube" -> {"i", "c"} [] SrcPreset = "rnd" -> {"i", "f"} [] SrcPreset = "red" -> {"i", "b", "n", "m"} [] SrcPreset = "cre" -> {"c"}
+    \* many blocks along one axis (lean grids include the all-ones grid): scans and reduction trees over 9..33 blocks
+    [] SrcPreset = "long"  -> {<<n>> : n \in {9, 13, 16, 17, 25, 32, 33}}
+SrcKinds == CASE SrcPreset \in {"1d", "1d7", "lean", "lean1", "lean2", "lean3", "long"} -> {"i"} [] SrcPreset = "cube" -> {"i", "c"} [] SrcPreset = "rnd" -> {"i", "f"} [] SrcPreset = "red" -> {"i", "b", "n", "m"} [] SrcPreset = "cre" -> {"c"}
               [] OTHER -> {"i", "f", "b"}
 
 \* source data: distinct small integers (index-mapping errors change values);
@@ -263,6 +265,44 @@ DiamondAct ==
                          [a |-> "Transpose", x |-> a, perm |-> q],
                          ew("add", a + 3, a + 4, 0)>>,
                     <<vv, v0>> \o (IF base = "mb" THEN <<v1>> ELSE <<>>) \o <<v2, v3, v4, v5, v6>>)
+
+\* map_blocks with a grid-independent function given in three ways: a function of the harness ("double": 2x), an importable
+\* NumPy function ("npround": the identity on integers), and a WRAPPER that carries the NumPy function's module and qualified
+\* name (functools.wraps) but computes 2 * round(x) ("borrowed": tokenizers that trust the advertised identity confuse the two)
+MapPlainAct ==
+  /\ Allowed("MapPlain") /\ CanStep
+  /\ \E x \in Pick({h \in Live : Rank(env[h]) >= 1 /\ env[h].kind = "i"}) : \E fn \in Pick({"double", "npround", "borrowed"}) :
+       Push([a |-> "MapPlain", x |-> x, fn |-> fn], IF fn = "npround" THEN env[x] ELSE Binary("mul", env[x], Scalar(2, "i")))
+
+\* A node with TWO fusable dependencies over one source: h2 = f(x), h3 = g(x), h4 = h2 `op` h3 (the order in which a
+\* fusion pass visits the dependencies must not leak into names / keys: C07; values: C02)
+JoinAct ==
+  /\ Allowed("Join") /\ CanStep
+  /\ \E x \in Pick({h \in Live : Rank(env[h]) >= 1 /\ env[h].kind = "i"}) :
+     \E f \in Pick({"add1", "mul2", "neg", "abs"}) : \E g \in Pick({"add1", "mul2", "neg", "sq"}) : \E op \in Pick({"add", "mul", "sub", "maximum"}) :
+       LET n == Len(env)
+           ew(o, a, b, sc) == [a |-> "Elemwise", op |-> o, x |-> a, y |-> b, scalar |-> sc, skind |-> IF b = 0 THEN "i" ELSE "none", swap |-> FALSE]
+           un(o, a) == [a |-> "Unary", op |-> o, x |-> a]
+           act(k, a) == CASE k = "add1" -> ew("add", a, 0, 1) [] k = "mul2" -> ew("mul", a, 0, 2) [] k = "neg" -> un("negative", a)
+                          [] k = "abs" -> un("abs", a) [] OTHER -> un("square", a)
+           val(k, A) == CASE k = "add1" -> Binary("add", A, Scalar(1, "i")) [] k = "mul2" -> Binary("mul", A, Scalar(2, "i"))
+                          [] k = "neg" -> Unary("negative", A) [] k = "abs" -> Unary("abs", A) [] OTHER -> Unary("square", A)
+           v2 == val(f, env[x]) v3 == val(g, env[x])
+       IN /\ f # g
+          /\ MultiPush(<<act(f, x), act(g, x), ew(op, n + 1, n + 2, 0)>>, <<v2, v3, Binary(op, v2, v3)>>)
+
+\* einsum patterns whose parsing picks index letters itself: an ellipsis ("...j,j->...": product with a vector summed
+\* over the last axis) and two contracted indices ("ijk,jk->i")
+EinsumAct ==
+  /\ Allowed("Einsum") /\ CanStep
+  /\ \E x \in Pick({h \in Live : Rank(env[h]) \in {2, 3} /\ env[h].kind = "i"}) :
+       \/ \E y \in Pick({h \in Live : Rank(env[h]) = 1 /\ env[h].kind = "i" /\ env[h].shape[1] = env[x].shape[Rank(env[x])]}) :
+            Push([a |-> "Einsum", x |-> x, y |-> y, pattern |-> "...j,j->..."],
+                 Reduce("sum", Binary("mul", env[x], env[y]), {Rank(env[x])}, FALSE))
+       \/ /\ Rank(env[x]) = 3
+          /\ \E y \in Pick({h \in Live : Rank(env[h]) = 2 /\ env[h].kind = "i" /\ env[h].shape = <<env[x].shape[2], env[x].shape[3]>>}) :
+               Push([a |-> "Einsum", x |-> x, y |-> y, pattern |-> "ijk,jk->i"],
+                    Reduce("sum", Binary("mul", env[x], env[y]), {2, 3}, FALSE))
 
 ScalarDom(kind) == IF kind = "f" THEN {<<1, 2>>, <<-3, 2>>, <<2, 1>>} ELSE {-1, 0, 2, 3}
 ArithOps == {"add", "sub", "mul", "maximum", "minimum"}
@@ -693,7 +733,7 @@ PersistAct ==
 
 Next ==
   \/ Start
-  \/ RechunkSpecAct \/ MapBlocksAct \/ BlockFirstAct \/ IndexNone \/ DiamondAct \/ MapBlocks2Act \/ SetItemAct \/ MaskSetAct \/ OutUfuncAct \/ MaskSelectAct \/ UnknownAct \/ ComputeChunkSizesAct \/ RandomAct \/ AdvIndexAct \/ DiagonalAct \/ StackMismatchAct \/ OverlapAct \/ PersistAct
+  \/ RechunkSpecAct \/ MapBlocksAct \/ BlockFirstAct \/ IndexNone \/ DiamondAct \/ MapBlocks2Act \/ JoinAct \/ EinsumAct \/ MapPlainAct \/ SetItemAct \/ MaskSetAct \/ OutUfuncAct \/ MaskSelectAct \/ UnknownAct \/ ComputeChunkSizesAct \/ RandomAct \/ AdvIndexAct \/ DiagonalAct \/ StackMismatchAct \/ OverlapAct \/ PersistAct
   \/ Index \/ Elemwise \/ UnaryAct \/ AsTypeAct \/ TransposeAct \/ ReshapeAct \/ ExpandSqueeze \/ FlipRoll
   \/ ConcatStack \/ RechunkAct \/ ReduceAct \/ ArgReduce \/ CumulativeAct \/ DiffAct \/ WhereAct \/ TakeAct
   \/ BroadcastAct \/ WindowAct \/ WindowReduce \/ DotAct \/ PadRepeat \/ TopKAct
